@@ -341,6 +341,7 @@ class _KeepsTheList(FnCheck):
 
 
 from pyvc.api import field, truthy   # noqa: E402
+from pyvc.state import FRESH_BASE   # noqa: E402
 
 
 @register
@@ -540,3 +541,120 @@ def _mk_codec(fn):
 
 register(_mk_codec('compress_payload'))
 register(_mk_codec('decompress_payload'))
+
+
+@register
+class ClientRequestFraming(FnCheck):
+    id = 'C17.client_request_framing'
+    prop = 'C17'
+    opaque_ok = True
+    target = f'{SC}:SoapClient._send_soap_request'
+    container_hints = {'self.request_encodings': 'list', 'self.supported_encodings': 'list'}
+    doc = ('SoapClient._send_soap_request, up to the moment the request is handed to the http connection: the header '
+           'dict is built for THIS request (a new object - nothing of an earlier request can remain in it); '
+           'Content-Encoding is present exactly when some coding the peer accepts (request_encodings) is enabled locally '
+           '(supported_encodings), it names the FIRST such coding and the body is compress(that coding, xml); otherwise '
+           'the xml goes out unchanged; the body is framed either by Content-Length = len(body) or, for a positive chunk '
+           'size, as mk_chunks(body, size) with transfer-encoding: chunked - never both')
+
+    def setup(self, b):
+        st = b.st
+        L = b.ex.ctx.builtin_class_ids['list']
+        self.xml = b.bytes('xml')
+        self.req = z3.Const('request_encodings', SeqVal)
+        self.sup_seq = z3.Const('supported_seq', SeqVal)
+        self.supported = z3.Const('supported', z3.ArraySort(Val, BoolS))
+        req_list, sup_list = b.obj('request_encodings'), b.obj('supported_encodings')
+        for o, s in ((req_list, self.req), (sup_list, self.sup_seq)):
+            st.assume(z3.Select(st.get_arr('C'), o.e) == L)
+            st.assume(z3.Select(st.get_arr('L'), o.e) == s)
+        x, jx = z3.Const('x!sup', Val), z3.Int('j!sup')
+        st.assume(z3.ForAll([jx], z3.Implies(z3.And(0 <= jx, jx < z3.Length(self.sup_seq)), z3.And(
+            z3.Select(self.supported, self.sup_seq[jx]), Val.is_str(self.sup_seq[jx])))))
+        st.assume(z3.ForAll([x], z3.Implies(z3.Select(self.supported, x), z3.Contains(self.sup_seq, z3.Unit(x)))))
+        jr = z3.Int('j!req')
+        st.assume(z3.ForAll([jr], z3.Implies(z3.And(0 <= jr, jr < z3.Length(self.req)), Val.is_str(self.req[jr]))))
+        self.chunk = b.int('chunk_size')
+        self.conn = b.obj('http_connection')
+        self.o = b.obj('self', cls=(SC, 'SoapClient'), request_encodings=req_list, supported_encodings=sup_list,
+                       _chunk_size=self.chunk, _http_connection=self.conn, _netloc=b.str('netloc'))
+        b.distinct(self.o, req_list, sup_list, self.conn)
+        self.compress = z3.Function('compress', Val, StrS, StrS)
+        self.chunks = z3.Function('mk_chunks', StrS, IntS, StrS)
+        self.first_fresh = None
+        return self.o, [b.str('path'), self.xml, b.str('log_msg')], {}
+
+    def callees(self, ex):
+        def compress(ex_, st, args, kwargs):
+            payload = ex_.concrete_kind(st, args[1], ('bytes',))
+            return vbytes(self.compress(st.box(args[0]), payload.e))
+
+        def chunks(ex_, st, args, kwargs):
+            payload = ex_.concrete_kind(st, args[0], ('bytes',))
+            return vbytes(self.chunks(payload.e, as_int(ex_, st, args[1])))
+
+        def request(ex_, st, args, kwargs):
+            st.ghost['c:request'] = (st.box(kwargs['body']), kwargs['headers'], st)
+            return Raise(ex_.mk_exc('HTTPException', 'request handed over (end of the part under contract)'))
+
+        def join(ex_, st, args, kwargs):
+            return vstr(fresh(StrS, 'joined'))
+        return {'sdc11073.httpserver.compression:CompressionHandler.compress_payload':
+                Pure(compress, name='compress_payload = uninterpreted compress(coding, body) (C17.compress_payload)', trusted=True),
+                f'{RD}:mk_chunks': Pure(chunks, name='mk_chunks = uninterpreted chunks(body, size) (C17.mk_chunks)'),
+                f'{SC}:mk_chunks': Pure(chunks, name='mk_chunks = uninterpreted chunks(body, size) (C17.mk_chunks)'),
+                'mk_chunks': Pure(chunks, name='mk_chunks = uninterpreted chunks(body, size) (C17.mk_chunks)'),
+                '*.request': Pure(request, name='HTTPConnection.request(method, path, body=, headers=)'),
+                '*.join': Pure(join, name='str.join'),
+                f'{SC}:SoapClient._close_without_lock': Pure(lambda e, s, a, k: NONE, name='_close_without_lock'),
+                'logging.getLogger': Pure(lambda e, s, a, k: s.alloc('Logger'), name='logging.getLogger')}
+
+    def hooks(self, ex):
+        ex.ctx.membership['self.supported_encodings'] = lambda st, item: z3.Select(self.supported, item)
+        return None
+
+    def loops(self, ex):
+        def inv(ex_, st, env):
+            k, seq = env['_k'], env['_seq']
+            if seq is None:      # the loop does not walk a list the contract knows (request_encodings)
+                return z3.BoolVal(False)
+            j = z3.Int('j!acc')
+            x = ex_.concrete_kind(st, st.locals['xml'], ('bytes',))
+            xe = x.e if x.kind == 'bytes' else Val.y(x.e)
+            return z3.And(z3.ForAll([j], z3.Implies(z3.And(0 <= j, j < k), z3.Not(z3.Select(self.supported, seq[j])))),
+                          xe == self.xml.e, *([Val.is_bytes(x.e)] if x.kind != 'bytes' else []))
+        return {0: LoopSpec(inv=inv, havoc_heap=[])}
+
+    def post(self, ex, st0, st, outcome, b):
+        req = st.ghost.get('c:request')
+        if req is None:
+            ex.oblige(st, 'request_is_handed_to_the_connection', z3.BoolVal(False), info={'outcome': repr(outcome[1])})
+            return
+        ex.oblige(st, 'request_is_handed_to_the_connection', z3.BoolVal(True))
+        body, headers, rst = req
+        m = models
+        hdr = ex.concrete_kind(rst, headers, ('ref',))
+        ex.oblige(rst, 'header_dict_is_built_for_this_request', hdr.e >= FRESH_BASE if hdr.kind == 'ref' else z3.BoolVal(False))
+        if hdr.kind != 'ref':
+            return
+        key = lambda s: vstr(z3.StringVal(s))   # noqa: E731
+        has = lambda s: m.dict_has(rst, hdr, key(s))   # noqa: E731
+        val = lambda s: m.dict_val(rst, hdr, key(s))   # noqa: E731
+        j, i = z3.Int('j!p'), z3.Int('i!p')
+        n = z3.Length(self.req)
+        first = lambda jj: z3.And(0 <= jj, jj < n, z3.Select(self.supported, self.req[jj]),   # noqa: E731
+                                  z3.ForAll([i], z3.Implies(z3.And(0 <= i, i < jj), z3.Not(z3.Select(self.supported, self.req[i])))))
+        none_ok = z3.ForAll([i], z3.Implies(z3.And(0 <= i, i < n), z3.Not(z3.Select(self.supported, self.req[i]))))
+        ce = has('Content-Encoding')
+        ex.oblige(rst, 'content_encoding_iff_some_accepted_coding_is_enabled', ce == z3.Not(none_ok))
+        ex.oblige(rst, 'content_encoding_names_the_first_acceptable_coding', z3.Implies(ce, z3.Exists([j], z3.And(
+            first(j), val('Content-Encoding') == self.req[j]))))
+        payload = z3.If(ce, self.compress(val('Content-Encoding'), self.xml.e), self.xml.e)
+        chunked = self.chunk.e > 0
+        ex.oblige(rst, 'body_is_the_announced_coding_of_the_xml_in_the_announced_framing', z3.And(
+            Val.is_bytes(body), Val.y(body) == z3.If(chunked, self.chunks(payload, self.chunk.e), payload)))
+        ex.oblige(rst, 'exactly_one_framing_header', z3.And(
+            has('transfer-encoding') == chunked, has('Content-Length') == z3.Not(chunked),
+            z3.Implies(chunked, val('transfer-encoding') == Val.str(z3.StringVal('chunked')))))
+        ex.oblige(rst, 'content_length_is_the_length_of_the_body_sent', z3.Implies(z3.Not(chunked), z3.And(
+            Val.is_str(val('Content-Length')), Val.s(val('Content-Length')) == models.uf('py_str_int', IntS, StrS)(z3.Length(payload)))))
